@@ -447,3 +447,17 @@ IP_OK = z3.Function("ipv4_text_ok", z3.StringSort(), z3.BoolSort())
 IP_PARSE = z3.Function("ipv4_text_value", z3.StringSort(), z3.BitVecSort(BVW))
 WS_LEN = z3.Function("ws_split_len", z3.StringSort(), z3.IntSort())
 WS_ARR = z3.Function("ws_split_arr", z3.StringSort(), z3.ArraySort(z3.IntSort(), z3.StringSort()))
+
+
+class ObjDict(Sym):
+    """obj.__dict__ of a heap object"""
+
+    def __init__(self, obj):
+        self.obj = obj
+
+
+class Snapshot(Sym):
+    """obj.__dict__.copy(): the values of all fields of one object at some moment"""
+
+    def __init__(self, obj, heap):
+        self.obj, self.heap = obj, dict(heap)
